@@ -363,7 +363,11 @@ def custom_filter_episode(seed):
         return [o for o in operations if o.job_id == top]
     d = jsl.Dispatcher(inst, ready_operations_filter=user_filter)
     est_obs = EarliestStartTimeObserver(d)
-    out = {"C01": [], "C02": [], "C11": [], "C16": []}
+    from job_shop_lib.graphs import build_disjunctive_graph, build_agent_task_graph
+    from job_shop_lib.graphs.graph_updaters import ResidualGraphUpdater
+    res_graph = r.choice([build_disjunctive_graph, build_agent_task_graph])(inst)
+    ResidualGraphUpdater(d, res_graph)
+    out = {"C01": [], "C02": [], "C11": [], "C16": [], "C17": [], "C06": []}
     tr = gen.Tracker(jobs)
     recorded = []
     while not tr.done():
@@ -389,6 +393,17 @@ def custom_filter_episode(seed):
         now = v.min_start(avail)
         if d.current_time() != now:
             out["C11"].append(("now", f"after {what}: current_time() = {d.current_time()}, the available operations imply {now}"))
+            out["C06"].append(("now", f"after {what}: current_time() = {d.current_time()}, the available operations imply {now}"))
+        # C17: with the updater attached, the node of every operation completed by now (the documented now) is gone, no unscheduled
+        # operation's node is
+        for ms_ in lists:
+            for x_ in ms_:
+                if x_.end_time <= now and not res_graph.is_removed(x_.operation.operation_id):
+                    out["C17"].append(("completed-kept", f"after {what}: operation {x_.operation.operation_id} ended at {x_.end_time} <= now = "
+                                       f"{now}, its node is still in the graph"))
+        for o_ in v.unscheduled():
+            if res_graph.is_removed(o_.operation_id):
+                out["C17"].append(("removed-unscheduled", f"after {what}: node of unscheduled operation {o_.operation_id} removed"))
         col = est_obs.features[next(k for k in est_obs.features if k.name == "OPERATIONS")]
         for jj, job in enumerate(inst.jobs):
             prev = v.job_ready[jj]
